@@ -8,7 +8,7 @@ from runsum import is_root
 
 RERUN_ON_CONFIGS = ("dfm", "std")
 LEVEL = "other"
-RULE_TEXT = ("C02-ST: no body of the library names a static that can change at run time (rule C12-P). C02-R: on every loop-body path of Interface::run the path variable handed to parse is the root at entry, "
+RULE_TEXT = ("C02-T/D: the trie the macro emits spells, below every node a header path leads to, exactly what is declared below that path (translation validation on the witness families, as C01-T/D): the path context is a node of that trie. C02-ST: no body of the library names a static that can change at run time (rule C12-P). C02-R: on every loop-body path of Interface::run the path variable handed to parse is the root at entry, "
              "root again after every path on which a terminator was consumed (terminated unit, empty message, skipped "
              "faulty message), the unit's parent header after an unterminated compound unit, unchanged after a common "
              "command; C02-P: on every Ok path of compound_command_program_header the returned header is the parent of "
@@ -54,6 +54,13 @@ def run(ck):
     # offered again), on an error it resumes behind the message - the exits of run per path (rule C06-R)
     import c06
     c06.rule_R(ck, lib, "C02-C06R")
+    # the path context is a `&'static Node` of the emitted trie: "resolved relative to the path of the preceding unit's
+    # header" presupposes that the node a header path leads to spells, below it, exactly what is declared below that path -
+    # two header paths sharing one static node, or a link overwritten by another declaration, resolve the unit behind ';'
+    # somewhere else (seeded C02-Z: short / long / optional-omitted paths sharing nodes in the macro's tree builder).
+    # Translation validation of the emitted trie on the witness families, as for C01:
+    import c01
+    c01.rule_T(ck, "C02-T", "C02-D")
     # "the handler a message selects never depends on any message sent before it": no state outside the locals of run
     import c12
     c12.rule_STATE(ck, lib, "C02-ST")
